@@ -176,6 +176,7 @@ var queries = map[string]string{
 	"flag":   `{ flag }`,
 	"items":  `{ items { id val } }`,
 	"blobs":  `{ blobs { id val } }`,
+	"scaled": `{ items { id a: scaled(by: 1) b: scaled(by: 10) } flag }`,
 	"thing":  `{ thing { __typename ... on A { id x } ... on B { id y } } }`,
 	"maybe":  `{ maybe { id val } flag }`,
 	"all":    `{ flag items { id } maybe { val } }`,
@@ -407,6 +408,10 @@ func (w *world) buildSchema() *graphql.Schema {
 	})
 	node := s.Object("Node", Node{})
 	node.Key("id")
+	// an Expensive (memoised under a rerunner) scalar field with an argument: selected twice under two aliases
+	node.FieldFunc("scaled", func(ctx context.Context, n *Node, args struct{ By int64 }) int64 {
+		return (n.Id + w.dep(ctx).Flag) * args.By
+	}, schemabuilder.Expensive)
 	s.Object("Blob", Blob{}).Key("id")
 	s.Object("A", A{}).Key("id")
 	s.Object("B", B{}).Key("id")
